@@ -227,6 +227,20 @@ def gen_case(r):
         else:
             y = SchemaT(rules + [G.rule_for(r, d, mode="typed", cast_p=0, cond_depth=1, max_len=2)])
     xc = commute_term(r, x)
+    if cls == "schema" and r.coin(50):
+        # also: the same rules in another order (y), with a second rule on the SAME path that
+        # declares the other cast, so that rule order is observable
+        rules = list(x.rules)
+        base = r.choice(rules)
+        other = base.replace(cast={None: "int", "int": "bool", "bool": "int"}[base.cast], cond=G.tree(r, ("value",), "typed", 1))
+        rules.insert(r.below(len(rules) + 1), other)
+        x = SchemaT(rules)
+        xc = commute_term(r, x)
+        perm = list(rules)
+        for i in range(len(perm) - 1, 0, -1):
+            j = r.below(i + 1)
+            perm[i], perm[j] = perm[j], perm[i]
+        y = SchemaT(perm)
     return cls, x, xc, y, probes
 
 
